@@ -335,7 +335,8 @@ theorem enableAck_core (s : St) : SameCore { s with ackEnabled := true } (enable
   unfold enableAck
   exact ⟨SameCore.refl _, rfl⟩
 
-theorem ph_s2Success {c enc fr auth s} (h : Ph c enc (.sasl2 .plain fr) auth false s) (hh : s.headerSeen = true) :
+theorem ph_s2Success {c enc u fr auth s} (h : Ph c enc (.sasl2 u fr) auth false s) (hh : s.headerSeen = true)
+    (hok : successOk u fr true = true) :
     Ph c enc .idle true false (step s (.recv (.s2Success .smEnabled .none false true))).1 ∧
     (step s (.recv (.s2Success .smEnabled .none false true))).1.headerSeen = true ∧
     (step s (.recv (.s2Success .smEnabled .none false true))).1.smEnabled = true := by
@@ -343,7 +344,7 @@ theorem ph_s2Success {c enc fr auth s} (h : Ph c enc (.sasl2 .plain fr) auth fal
   have e : (step s (.recv (.s2Success .smEnabled .none false true))).1 =
       { s with authenticated := true, bind2Bound := true, hasToken := s.hasToken, canResume := true, smEnabled := true,
                ackEnabled := true, listener := .idle } := by
-    simp [step, recv, h2, h3, hh, dispatch, h5, sasl2Handle, onSmEnabled, enableAck, successOk]
+    simp [step, recv, h2, h3, hh, dispatch, h5, sasl2Handle, onSmEnabled, enableAck, hok]
   rw [e]
   exact ⟨⟨h1, h2, h3, h4, rfl, rfl, h7, h8⟩, hh, rfl⟩
 
@@ -367,7 +368,7 @@ theorem flowSasl2Bind2_connects {c enc auth s} (h0 : Ph c enc .idle auth false s
     .sig .connected ∈ (run s flowSasl2Bind2).2 ∧ Ph c enc .idle true true (run s flowSasl2Bind2).1 := by
   have a1 := ph_header h0 true
   have a2 := ph_features_sasl2 a1.1 a1.2.1 htls hs2 hplain
-  have a3 := ph_s2Success a2.1 a2.2
+  have a3 := ph_s2Success a2.1 a2.2 rfl
   have a4 := ph_features_sm_done a3.1 a3.2.1 htls a3.2.2
   have e : flowSasl2Bind2 = [.recv (.header true true), .recv (.features { sasl2 := some s2z }),
       .recv (.s2Success .smEnabled .none false true), .recv (.features { sm := true })] := rfl
@@ -1063,8 +1064,24 @@ theorem step_effD (s : St) (e : Ev) : EffD s.sessionStarted (step s e) := by
 features (both restart negotiation) -/
 def noNegotiationInSession (s : St) : Ev → Prop
   | .recv (.features _) => s.sessionStarted = false
-  | .recv (.header _ _) => s.sessionStarted = false
+  | .recv (.header v _) =>
+    -- a header is harmless unless it restarts XEP-0078 authentication: version-less, on a stream whose version is not
+    -- recorded (a pre-1.0 session), with legacy authentication enabled
+    s.sessionStarted = false ∨ v = true ∨ s.streamVersionSet = true ∨ s.cfg.useNonSasl = false
   | _ => True
+
+theorem handleStream_keeps_listener (s : St) (v i : Bool)
+    (h : v = true ∨ s.streamVersionSet = true ∨ s.cfg.useNonSasl = false) :
+    (handleStream s v i).1.listener = s.listener := by
+  unfold handleStream
+  dsimp only
+  split
+  · rfl
+  · rename_i hv
+    rcases h with h | h | h
+    · subst h; simp
+    · exact absurd h hv
+    · simp [h]
 
 /-- while a session is flagged, the listener is the idle one -/
 def JP (s : St) : Prop := s.sessionStarted = true → s.listener = .idle
@@ -1140,8 +1157,12 @@ theorem step_j (s : St) (e : Ev) (hj : JP s) (hconf : noNegotiationInSession s e
         split
         · exact ⟨fun _ => hl, by simp⟩
         · split
-          · have : s.sessionStarted = false := hconf
-            rw [hs] at this; cases this
+          · rename_i v i
+            have hc' : v = true ∨ s.streamVersionSet = true ∨ s.cfg.useNonSasl = false := by
+              rcases hconf with h | h
+              · rw [hs] at h; cases h
+              · exact h
+            exact ⟨fun _ => (handleStream_keeps_listener { s with headerSeen := true } v i hc').trans hl, by simp⟩
           · split
             · exact ⟨fun _ => hl, by simp⟩
             · split
@@ -1627,5 +1648,747 @@ theorem flowLegacy_connects {c enc auth s} (h0 : Ph c enc .idle auth false s) (h
   · rw [e]; simp only [run_cons, run]; exact a3.2.2.2
   · rw [e]; simp only [run_cons, run, nC_append, a1.2.2.1, a2.2.2.1, a3.2.1, nC_nil]
   · rw [e]; simp only [run_cons, run, nD_append, a1.2.2.2, a2.2.2.2, a3.2.2.1, nD_nil]
+
+/-! ### more conforming flows: SCRAM, stream management (enable / resume accepted / resume refused), FAST, redirect -/
+
+/-- the features element that offers one SASL mechanism -/
+def featMech (m : Mech) : Features := { mechs := some m }
+/-- post-authentication features: classic bind, optionally stream management -/
+def featBind (sm : Bool) : Features := { bind := true, sm := sm }
+
+theorem fr_header {c enc l auth sess s} (h : Ph c enc l auth sess s) (i : Bool) :
+    (step s (.recv (.header true i))).1.canResume = s.canResume ∧ (step s (.recv (.header true i))).1.smEnabled = s.smEnabled ∧
+    (step s (.recv (.header true i))).1.hasToken = s.hasToken ∧ (step s (.recv (.header true i))).1.smAvail = s.smAvail ∧
+    (step s (.recv (.header true i))).1.bindAvail = s.bindAvail := by
+  obtain ⟨h1, h2, h3, h4, h5, h6, h7, h8⟩ := h
+  by_cases hv : s.streamVersionSet = true <;> simp [step, recv, h2, h3, handleStream, hv]
+
+theorem ph_features_sasl {c enc auth sess s} (m : Mech) (u : Used) (h : Ph c enc .idle auth sess s) (hh : s.headerSeen = true)
+    (htls : enc = true ∨ c.tls ≠ .required) (hsasl : c.useSasl = true) (hu : mechUsable s m = some u) :
+    Ph c enc (.sasl u true) auth sess (step s (.recv (.features (featMech m)))).1 ∧
+    (step s (.recv (.features (featMech m)))).1.headerSeen = true ∧
+    nC (step s (.recv (.features (featMech m)))).2 = 0 ∧ nD (step s (.recv (.features (featMech m)))).2 = 0 ∧
+    (step s (.recv (.features (featMech m)))).1.canResume = s.canResume := by
+  have hst := noStarttls h (featMech m) rfl htls
+  obtain ⟨h1, h2, h3, h4, h5, h6, h7, h8⟩ := h
+  have e : step s (.recv (.features (featMech m))) = ({ s with listener := .sasl u true }, [send s (.saslAuth u)]) := by
+    simp only [featMech] at hst
+    simp [step, recv, h2, h3, hh, dispatch, h5, idleHandle, El.isStanza, idleHandle', handleFeatures, hst, h1, hsasl, startSasl, hu, featMech]
+  rw [e]
+  exact ⟨⟨h1, h2, h3, h4, rfl, h6, h7, h8⟩, hh, by simp, by simp, rfl⟩
+
+theorem ph_saslChallenge {c enc auth sess s} (h : Ph c enc (.sasl .scram true) auth sess s) (hh : s.headerSeen = true) :
+    Ph c enc (.sasl .scram false) auth sess (step s (.recv (.saslChallenge true))).1 ∧
+    (step s (.recv (.saslChallenge true))).1.headerSeen = true ∧
+    nC (step s (.recv (.saslChallenge true))).2 = 0 ∧ nD (step s (.recv (.saslChallenge true))).2 = 0 ∧
+    (step s (.recv (.saslChallenge true))).1.canResume = s.canResume := by
+  obtain ⟨h1, h2, h3, h4, h5, h6, h7, h8⟩ := h
+  have e : step s (.recv (.saslChallenge true)) = ({ s with listener := .sasl .scram false }, [send s .saslResponse]) := by
+    simp [step, recv, h2, h3, hh, dispatch, h5, saslHandle, respondable]
+  rw [e]
+  exact ⟨⟨h1, h2, h3, h4, rfl, h6, h7, h8⟩, hh, by simp, by simp, rfl⟩
+
+/-- `<success/>` accepted (PLAIN, HT: always; SCRAM: after the client-final message, with the server signature) -/
+theorem ph_saslSuccessAny {c enc u fr auth sess s} (h : Ph c enc (.sasl u fr) auth sess s) (hh : s.headerSeen = true)
+    (hok : successOk u fr true = true) :
+    Ph c enc .idle true sess (step s (.recv (.saslSuccess true))).1 ∧ (step s (.recv (.saslSuccess true))).1.headerSeen = true ∧
+    nC (step s (.recv (.saslSuccess true))).2 = 0 ∧ nD (step s (.recv (.saslSuccess true))).2 = 0 ∧
+    (step s (.recv (.saslSuccess true))).1.canResume = s.canResume ∧ (step s (.recv (.saslSuccess true))).1.smEnabled = false := by
+  obtain ⟨h1, h2, h3, h4, h5, h6, h7, h8⟩ := h
+  have e : step s (.recv (.saslSuccess true)) = handleStart { s with authenticated := true } := by
+    simp [step, recv, h2, h3, hh, dispatch, h5, saslHandle, hok]
+  rw [e]
+  unfold handleStart
+  exact ⟨⟨h1, h2, h3, h4, rfl, rfl, h7, h8⟩, hh, by simp, by simp, rfl, rfl⟩
+
+/-- post-authentication features with classic bind (and stream management or not): the client resumes if it can, else binds -/
+theorem ph_features_bindSm {c enc auth sess s} (sm : Bool) (h : Ph c enc .idle auth sess s) (hh : s.headerSeen = true)
+    (htls : enc = true ∨ c.tls ≠ .required) (hsme : s.smEnabled = false) :
+    Ph c enc (if sm && s.canResume then .smResume else .bind) auth sess (step s (.recv (.features (featBind sm)))).1 ∧
+    (step s (.recv (.features (featBind sm)))).1.headerSeen = true ∧
+    nC (step s (.recv (.features (featBind sm)))).2 = 0 ∧ nD (step s (.recv (.features (featBind sm)))).2 = 0 ∧
+    (step s (.recv (.features (featBind sm)))).1.smAvail = sm ∧ (step s (.recv (.features (featBind sm)))).1.bindAvail = true ∧
+    (step s (.recv (.features (featBind sm)))).1.smEnabled = false := by
+  have hst := noStarttls h (featBind sm) rfl htls
+  obtain ⟨h1, h2, h3, h4, h5, h6, h7, h8⟩ := h
+  simp only [featBind] at hst
+  by_cases hr : (sm && s.canResume) = true
+  · have hr' : sm = true ∧ s.canResume = true := by simpa using hr
+    obtain ⟨hsm1, hcr1⟩ := hr'
+    subst hsm1
+    have hr' : true = true ∧ s.canResume = true := ⟨rfl, hcr1⟩
+    have e : step s (.recv (.features (featBind true))) =
+        ({ s with bindAvail := true, smAvail := true, csiAvail := false, listener := .smResume },
+         [send { s with bindAvail := true, smAvail := true, csiAvail := false } .smResume]) := by
+      simp [step, recv, h2, h3, hh, dispatch, h5, idleHandle, El.isStanza, idleHandle', handleFeatures, hst, featBind, hsme, hr'.1, hr'.2,
+        startSmResume]
+    rw [e, if_pos hr]
+    exact ⟨⟨h1, h2, h3, h4, rfl, h6, h7, h8⟩, hh, by simp, by simp, rfl, rfl, hsme⟩
+  · have hr' : ¬ (sm = true ∧ s.canResume = true) := by simpa using hr
+    have e : step s (.recv (.features (featBind sm))) =
+        ({ s with bindAvail := true, smAvail := sm, csiAvail := false, listener := .bind },
+         [send { s with bindAvail := true, smAvail := sm, csiAvail := false } .bind]) := by
+      have : ¬ (sm = true ∧ s.smEnabled = false ∧ s.canResume = true) := fun h => hr' ⟨h.1, h.2.2⟩
+      simp [step, recv, h2, h3, hh, dispatch, h5, idleHandle, El.isStanza, idleHandle', handleFeatures, hst, featBind, this, startBind]
+    rw [e, if_neg hr]
+    exact ⟨⟨h1, h2, h3, h4, rfl, h6, h7, h8⟩, hh, by simp, by simp, rfl, rfl, hsme⟩
+
+/-- shape of a step that opens the session through `openSession t` and makes the listener idle -/
+theorem opened_facts {c enc auth} (t : St) (pre : List Out) (hpre : nC pre = 0 ∧ nD pre = 0)
+    (hc : t.cfg = c) (hconn : t.conn = .connected) (hw : t.wedged = false) (he : t.encrypted = enc)
+    (ha : t.authenticated = auth) (hr : t.redirect = false) (r : R)
+    (hrr : r = ({ (openSession t).1 with listener := .idle }, pre ++ (openSession t).2)) :
+    .sig .connected ∈ r.2 ∧ nC r.2 = 1 ∧ nD r.2 = 0 ∧ Ph c enc .idle auth true r.1 := by
+  subst hrr
+  have sp := openSession_spec t
+  have co := sp.2.2.1
+  refine ⟨List.mem_append_right _ sp.1, by simp [hpre.1], by simp [hpre.2], ?_⟩
+  exact ⟨co.cfg.trans hc, co.conn.trans hconn, co.wedged.trans hw, co.encrypted.trans he, rfl, co.authenticated.trans ha,
+    sp.2.1, co.redirect.trans hr⟩
+
+theorem ph_smResumed {c enc auth s} (h : Ph c enc .smResume auth false s) (hh : s.headerSeen = true) :
+    .sig .connected ∈ (step s (.recv .smResumed)).2 ∧ nC (step s (.recv .smResumed)).2 = 1 ∧
+    nD (step s (.recv .smResumed)).2 = 0 ∧ Ph c enc .idle auth true (step s (.recv .smResumed)).1 := by
+  obtain ⟨h1, h2, h3, h4, h5, h6, h7, h8⟩ := h
+  have e : step s (.recv .smResumed) =
+      ({ (openSession (onSmResumed s).1).1 with listener := .idle }, (onSmResumed s).2 ++ (openSession (onSmResumed s).1).2) := by
+    simp [step, recv, h2, h3, hh, dispatch, h5, smResumeHandle]
+  exact opened_facts (onSmResumed s).1 (onSmResumed s).2 ⟨by simp, by simp⟩ h1 h2 h3 h4 h6 h8 _ e
+
+theorem ph_smFailed_bind {c enc auth sess s} (h : Ph c enc .smResume auth sess s) (hh : s.headerSeen = true)
+    (hb : s.bindAvail = true) :
+    Ph c enc .bind auth sess (step s (.recv .smFailed)).1 ∧ (step s (.recv .smFailed)).1.headerSeen = true ∧
+    nC (step s (.recv .smFailed)).2 = 0 ∧ nD (step s (.recv .smFailed)).2 = 0 ∧
+    (step s (.recv .smFailed)).1.smAvail = s.smAvail ∧ (step s (.recv .smFailed)).1.smEnabled = s.smEnabled := by
+  obtain ⟨h1, h2, h3, h4, h5, h6, h7, h8⟩ := h
+  have e : step s (.recv .smFailed) = ({ s with listener := .bind }, [send s .bind]) := by
+    simp [step, recv, h2, h3, hh, dispatch, h5, smResumeHandle, hb, startBind]
+  rw [e]
+  exact ⟨⟨h1, h2, h3, h4, rfl, h6, h7, h8⟩, hh, by simp, by simp, rfl, rfl⟩
+
+theorem ph_bindOk_thenEnable {c enc auth sess s} (h : Ph c enc .bind auth sess s) (hh : s.headerSeen = true)
+    (hsm : s.smAvail = true) (hsme : s.smEnabled = false) :
+    Ph c enc .smEnable auth sess (step s (.recv (.iq (.bindResult .ok)))).1 ∧
+    (step s (.recv (.iq (.bindResult .ok)))).1.headerSeen = true ∧
+    nC (step s (.recv (.iq (.bindResult .ok)))).2 = 0 ∧ nD (step s (.recv (.iq (.bindResult .ok)))).2 = 0 := by
+  obtain ⟨h1, h2, h3, h4, h5, h6, h7, h8⟩ := h
+  have e : step s (.recv (.iq (.bindResult .ok))) = ({ s with listener := .smEnable }, [send s .smEnable]) := by
+    simp [step, recv, h2, h3, hh, dispatch, h5, bindHandle, hsm, hsme, startSmEnable]
+  rw [e]
+  exact ⟨⟨h1, h2, h3, h4, rfl, h6, h7, h8⟩, hh, by simp, by simp⟩
+
+theorem ph_smEnabled {c enc auth s} (resume : Bool) (h : Ph c enc .smEnable auth false s) (hh : s.headerSeen = true) :
+    .sig .connected ∈ (step s (.recv (.smEnabled resume))).2 ∧ nC (step s (.recv (.smEnabled resume))).2 = 1 ∧
+    nD (step s (.recv (.smEnabled resume))).2 = 0 ∧ Ph c enc .idle auth true (step s (.recv (.smEnabled resume))).1 := by
+  obtain ⟨h1, h2, h3, h4, h5, h6, h7, h8⟩ := h
+  have e : step s (.recv (.smEnabled resume)) =
+      ({ (openSession (onSmEnabled s resume).1).1 with listener := .idle },
+       (onSmEnabled s resume).2 ++ (openSession (onSmEnabled s resume).1).2) := by
+    simp [step, recv, h2, h3, hh, dispatch, h5, smEnableHandle]
+  exact opened_facts (onSmEnabled s resume).1 (onSmEnabled s resume).2 ⟨by simp, by simp⟩ h1 h2 h3 h4 h6 h8 _ e
+
+/-! ### every conforming flow, every cut point of it: `connected` exactly once, by the last element -/
+
+/-- no session is reported before the last event of the list; the last event reports `connected` exactly once, nothing reports
+`disconnected`, and it leaves an authenticated session on a connected socket -/
+def OpensAtEnd (s : St) : List Ev → Prop
+  | [] => False
+  | [e] => nC (step s e).2 = 1 ∧ nD (step s e).2 = 0 ∧ (step s e).1.sessionStarted = true ∧
+      (step s e).1.conn = .connected ∧ (step s e).1.authenticated = true
+  | e :: e' :: es => nC (step s e).2 = 0 ∧ nD (step s e).2 = 0 ∧ (step s e).1.sessionStarted = false ∧
+      OpensAtEnd (step s e).1 (e' :: es)
+
+theorem opensAtEnd_spec (evs : List Ev) (s : St) (hs : s.sessionStarted = false) (h : OpensAtEnd s evs) :
+    nC (run s evs).2 = 1 ∧ nD (run s evs).2 = 0 ∧ isConnected (run s evs).1 = true ∧ (run s evs).1.authenticated = true ∧
+    (∀ k, k < evs.length → nC (run s (evs.take k)).2 = 0 ∧ nD (run s (evs.take k)).2 = 0 ∧
+      isConnected (run s (evs.take k)).1 = false) := by
+  induction evs generalizing s with
+  | nil => exact absurd h (by simp [OpensAtEnd])
+  | cons e es ih =>
+    cases es with
+    | nil =>
+      obtain ⟨h1, h2, h3, h4, h5⟩ := h
+      refine ⟨by simp [run, h1], by simp [run, h2], by simp [run, isConnected, h3, h4], by simp [run, h5], ?_⟩
+      intro k hk
+      have : k = 0 := by simp at hk; omega
+      subst this
+      simp [run, isConnected, hs]
+    | cons e' es' =>
+      obtain ⟨h1, h2, h3, h4⟩ := h
+      have r := ih (step s e).1 h3 h4
+      have rc : run s (e :: e' :: es') =
+          ((run (step s e).1 (e' :: es')).1, (step s e).2 ++ (run (step s e).1 (e' :: es')).2) := rfl
+      rw [rc]
+      dsimp only
+      refine ⟨by rw [nC_append, h1, r.1], by rw [nD_append, h2, r.2.1], r.2.2.1, r.2.2.2.1, ?_⟩
+      intro k hk
+      cases k with
+      | zero => simp [run, isConnected, hs]
+      | succ k =>
+        have := r.2.2.2.2 k (by simp at hk ⊢; omega)
+        simp only [List.take_succ_cons, run_cons, nC_append, nD_append, h1, h2, Nat.zero_add]
+        exact this
+
+/-- a step whose result still has no session on a connected socket reported nothing -/
+theorem quiet_of_ph {c enc l auth s e} (h : Ph c enc l auth false (step s e).1) :
+    nC (step s e).2 = 0 ∧ nD (step s e).2 = 0 ∧ (step s e).1.sessionStarted = false := by
+  refine ⟨?_, ?_, h.sess⟩
+  · rcases step_done s e with hd | hd
+    · exact hd
+    · rw [h.sess] at hd; cases hd.2.2.1
+  · rcases step_effD s e with he | he
+    · exact he.1
+    · exact absurd h.conn he.2.2.2
+
+/-- a step that takes the session flag from false to true on a connected socket reported `connected` exactly once -/
+theorem opened_of_ph {c enc l s e} (hs : s.sessionStarted = false) (h : Ph c enc l true true (step s e).1) :
+    nC (step s e).2 = 1 ∧ nD (step s e).2 = 0 ∧ (step s e).1.sessionStarted = true ∧
+    (step s e).1.conn = .connected ∧ (step s e).1.authenticated = true := by
+  have hc1 : nC (step s e).2 = 1 := by
+    rcases step_done s e with hd | hd
+    · rcases step_effD s e with he | he
+      · have := he.2 hd; rw [hs, h.sess] at this; cases this
+      · rw [h.sess] at he; cases he.2.2.1
+    · exact hd.1
+  refine ⟨hc1, ?_, h.sess, h.conn, h.auth⟩
+  rcases step_effD s e with he | he
+  · exact he.1
+  · rw [he.2.1] at hc1; cases hc1
+
+/-- the state right after (re)connecting: stream opened, nothing received -/
+structure Start (c : Cfg) (cr : Bool) (s : St) : Prop where
+  ph : Ph c false .idle false false s
+  ver : s.streamVersionSet = false
+  sme : s.smEnabled = false
+  cr : s.canResume = cr
+  tok : s.hasToken = c.token
+
+theorem start_after_cut (s : St) (hc : s.conn = .connected) (hr : s.redirect = false) :
+    Start s.cfg s.canResume (run s cutAndReconnect).1 := by
+  refine ⟨ph_after_cut s hc hr, ?_, ?_, ?_, ?_⟩ <;> rw [cut_reconnect_state s hc hr]
+
+/-- SASL2 with bind2 (inline stream management) and FAST -/
+def s2zFast : S2Feat := { mech := .plain, bind2 := true, bind2Ext := true, fast := true, smInline := false }
+
+theorem ph_features_sasl2fast {c enc auth sess s} (h : Ph c enc .idle auth sess s) (hh : s.headerSeen = true)
+    (htls : enc = true ∨ c.tls ≠ .required) (hs2 : c.useSasl2 = true) (hua : c.fastUa = true) (htok : s.hasToken = true) :
+    Ph c enc (.sasl2 .ht true) auth sess (step s (.recv (.features { sasl2 := some s2zFast }))).1 ∧
+    (step s (.recv (.features { sasl2 := some s2zFast }))).1.headerSeen = true := by
+  have hst := noStarttls h { sasl2 := some s2zFast } rfl htls
+  simp only [s2zFast] at hst
+  obtain ⟨h1, h2, h3, h4, h5, h6, h7, h8⟩ := h
+  have e : (step s (.recv (.features { sasl2 := some s2zFast }))).1 =
+      { s with bind2InactiveSet := s.cfg.inactive, tokenRequested := false, listener := .sasl2 .ht true } := by
+    simp [step, recv, h2, h3, hh, dispatch, h5, idleHandle, El.isStanza, idleHandle', handleFeatures, hst, h1, hs2, startSasl2, s2zFast, hua, htok]
+  rw [e]
+  exact ⟨⟨h1, h2, h3, h4, rfl, h6, h7, h8⟩, hh⟩
+
+/-- see-other-host before any session, then the new TCP connection: a fresh start again -/
+theorem start_after_redirect {c cr s} (h : Ph c false .idle false false s) (hcr : s.canResume = cr)
+    (htok : s.hasToken = c.token) (hh : s.headerSeen = true) :
+    nC (step s (.recv (.streamError true))).2 = 0 ∧ nD (step s (.recv (.streamError true))).2 = 0 ∧
+    (step s (.recv (.streamError true))).1.sessionStarted = false ∧
+    nC (step (step s (.recv (.streamError true))).1 .socketConnected).2 = 0 ∧
+    nD (step (step s (.recv (.streamError true))).1 .socketConnected).2 = 0 ∧
+    Start c cr (step (step s (.recv (.streamError true))).1 .socketConnected).1 := by
+  obtain ⟨h1, h2, h3, h4, h5, h6, h7, h8⟩ := h
+  have e : step s (.recv (.streamError true)) =
+      ({ s with redirect := false, conn := .connecting, encrypted := false, authenticated := false },
+       [send { s with redirect := true } .streamClose]) := by
+    simp [step, recv, h2, h3, hh, dispatch, h5, idleHandle, El.isStanza, idleHandle', socketClose, onSocketDisconnected, h7, h6]
+  rw [e]
+  refine ⟨by simp, by simp, h7, ?_, ?_, ?_⟩
+  · simp [step, handleStart]
+  · simp [step, handleStart]
+  · simp only [step, if_true, handleStart]
+    exact ⟨⟨h1, rfl, rfl, rfl, rfl, rfl, h7, rfl⟩, rfl, rfl, hcr, htok⟩
+
+/-- the conforming flows (what a correct server says after the client's stream open, in order) -/
+inductive Flow
+  | saslBind | tlsSaslBind | scramBind | sasl2Bind2 | tlsSasl2Bind2 | sasl2Fast | legacy
+  | saslBindSm (resumable : Bool)   -- classic bind, then `<enable/>` answered with `<enabled/>`
+  | resumeAccepted                  -- `<resume/>` answered with `<resumed/>`
+  | resumeRefused                   -- `<resume/>` answered with `<failed/>`, then bind and `<enable/>`
+  | redirectThenSaslBind            -- see-other-host right after the header, then SASL + bind on the new connection
+  deriving DecidableEq, Repr
+
+def preSasl : List Ev :=
+  [.recv (.header true true), .recv (.features (featMech .plain)), .recv (.saslSuccess true), .recv (.header true true)]
+def preTls : List Ev :=
+  [.recv (.header true true), .recv (.features { tls := .optional }), .recv (.proceed true)]
+
+def Flow.script : Flow → List Ev
+  | .saslBind => preSasl ++ [.recv (.features (featBind false)), .recv (.iq (.bindResult .ok))]
+  | .tlsSaslBind => preTls ++ preSasl ++ [.recv (.features (featBind false)), .recv (.iq (.bindResult .ok))]
+  | .scramBind => [.recv (.header true true), .recv (.features (featMech .scram)), .recv (.saslChallenge true),
+      .recv (.saslSuccess true), .recv (.header true true), .recv (.features (featBind false)), .recv (.iq (.bindResult .ok))]
+  | .sasl2Bind2 => flowSasl2Bind2
+  | .tlsSasl2Bind2 => preTls ++ flowSasl2Bind2
+  | .sasl2Fast => [.recv (.header true true), .recv (.features { sasl2 := some s2zFast }),
+      .recv (.s2Success .smEnabled .none false true), .recv (.features { sm := true })]
+  | .legacy => flowLegacy
+  | .saslBindSm r => preSasl ++ [.recv (.features (featBind true)), .recv (.iq (.bindResult .ok)), .recv (.smEnabled r)]
+  | .resumeAccepted => preSasl ++ [.recv (.features (featBind true)), .recv .smResumed]
+  | .resumeRefused => preSasl ++ [.recv (.features (featBind true)), .recv .smFailed, .recv (.iq (.bindResult .ok)),
+      .recv (.smEnabled true)]
+  | .redirectThenSaslBind => [.recv (.header true true), .recv (.streamError true), .socketConnected] ++ preSasl ++
+      [.recv (.features (featBind false)), .recv (.iq (.bindResult .ok))]
+
+/-- what the configuration (and, for the resumption flows, the client's resumption state) must allow for the flow to be the
+conforming one -/
+def Flow.applicable (c : Cfg) (cr : Bool) : Flow → Prop
+  | .saslBind => c.useSasl = true ∧ c.plainOk = true ∧ c.tls ≠ .required
+  | .tlsSaslBind => c.useSasl = true ∧ c.plainOk = true ∧ c.tls ≠ .disabled ∧ c.localTls = true
+  | .scramBind => c.useSasl = true ∧ c.tls ≠ .required
+  | .sasl2Bind2 => c.useSasl2 = true ∧ c.plainOk = true ∧ c.tls ≠ .required
+  | .tlsSasl2Bind2 => c.useSasl2 = true ∧ c.plainOk = true ∧ c.tls ≠ .disabled ∧ c.localTls = true
+  | .sasl2Fast => c.useSasl2 = true ∧ c.fastUa = true ∧ c.token = true ∧ c.tls ≠ .required
+  | .legacy => c.useNonSasl = true ∧ c.tls ≠ .required
+  | .saslBindSm _ => c.useSasl = true ∧ c.plainOk = true ∧ c.tls ≠ .required ∧ cr = false
+  | .resumeAccepted => c.useSasl = true ∧ c.plainOk = true ∧ c.tls ≠ .required ∧ cr = true
+  | .resumeRefused => c.useSasl = true ∧ c.plainOk = true ∧ c.tls ≠ .required ∧ cr = true
+  | .redirectThenSaslBind => c.useSasl = true ∧ c.plainOk = true ∧ c.tls ≠ .required
+
+/-- facts after the common prefix header, PLAIN offered, `<success/>`, header -/
+theorem preSasl_chain {c enc cr s} (h0 : Ph c enc .idle false false s) (hcr : s.canResume = cr)
+    (hsasl : c.useSasl = true) (hplain : c.plainOk = true) (htls : enc = true ∨ c.tls ≠ .required)
+    (rest : List Ev) (hrest : rest ≠ [])
+    (k : ∀ t, Ph c enc .idle true false t → t.headerSeen = true → t.canResume = cr → t.smEnabled = false →
+      OpensAtEnd t rest) :
+    OpensAtEnd s (preSasl ++ rest) := by
+  have a1 := ph_header h0 true
+  have f1 := fr_header h0 true
+  have hu : mechUsable (step s (.recv (.header true true))).1 .plain = some .plain := by
+    simp only [mechUsable]; rw [a1.1.cfg, hplain]; rfl
+  have a2 := ph_features_sasl .plain .plain a1.1 a1.2.1 htls hsasl hu
+  have a3 := ph_saslSuccessAny a2.1 a2.2.1 rfl
+  have a4 := ph_header a3.1 true
+  have f4 := fr_header a3.1 true
+  have hk := k _ a4.1 a4.2.1 (by rw [f4.1, a3.2.2.2.2.1, a2.2.2.2.2, f1.1, hcr]) (by rw [f4.2.1, a3.2.2.2.2.2])
+  cases rest with
+  | nil => exact absurd rfl hrest
+  | cons r0 rs =>
+    have q1 := quiet_of_ph a1.1
+    have q4 := quiet_of_ph a4.1
+    exact ⟨q1.1, q1.2.1, q1.2.2, a2.2.2.1, a2.2.2.2.1, a2.1.sess, a3.2.2.1, a3.2.2.2.1, a3.1.sess, q4.1, q4.2.1, q4.2.2, hk⟩
+
+/-- classic bind without stream management -/
+theorem bind_chain {c enc t} (h : Ph c enc .idle true false t) (hh : t.headerSeen = true) (hsme : t.smEnabled = false)
+    (htls : enc = true ∨ c.tls ≠ .required) :
+    OpensAtEnd t [.recv (.features (featBind false)), .recv (.iq (.bindResult .ok))] := by
+  have b1 := ph_features_bindSm false h hh htls hsme
+  simp only [Bool.false_and, Bool.false_eq_true, if_false] at b1
+  have b2 := ph_bindOk b1.1 b1.2.1 b1.2.2.2.2.1
+  exact ⟨b1.2.2.1, b1.2.2.2.1, b1.1.sess, opened_of_ph b1.1.sess b2.2⟩
+
+theorem sasl2_chain {c enc s} (h0 : Ph c enc .idle false false s) (hs2 : c.useSasl2 = true) (hplain : c.plainOk = true)
+    (htls : enc = true ∨ c.tls ≠ .required) : OpensAtEnd s flowSasl2Bind2 := by
+  have a1 := ph_header h0 true
+  have a2 := ph_features_sasl2 a1.1 a1.2.1 htls hs2 hplain
+  have a3 := ph_s2Success a2.1 a2.2 rfl
+  have a4 := ph_features_sm_done a3.1 a3.2.1 htls a3.2.2
+  have q1 := quiet_of_ph a1.1
+  have q2 := quiet_of_ph a2.1
+  have q3 := quiet_of_ph a3.1
+  exact ⟨q1.1, q1.2.1, q1.2.2, q2.1, q2.2.1, q2.2.2, q3.1, q3.2.1, q3.2.2, opened_of_ph a3.1.sess a4.2⟩
+
+theorem tls_chain {c s} (h0 : Ph c false .idle false false s) (hl : c.localTls = true) (ht : c.tls ≠ .disabled)
+    (rest : List Ev) (hrest : rest ≠ [])
+    (k : ∀ t, Ph c true .idle false false t → OpensAtEnd t rest) : OpensAtEnd s (preTls ++ rest) := by
+  have a1 := ph_header h0 true
+  have a2 := ph_features_starttls a1.1 a1.2.1 hl ht
+  have a3 := ph_proceed a2.1 a2.2
+  have q1 := quiet_of_ph a1.1
+  have q2 := quiet_of_ph a2.1
+  have q3 := quiet_of_ph a3
+  cases rest with
+  | nil => exact absurd rfl hrest
+  | cons r0 rs => exact ⟨q1.1, q1.2.1, q1.2.2, q2.1, q2.2.1, q2.2.2, q3.1, q3.2.1, q3.2.2, k _ a3⟩
+
+/-- **Every conforming flow opens the session exactly at its last element**, from any freshly (re)connected client whose
+configuration makes the flow the applicable one. -/
+theorem flow_opens (fl : Flow) {c cr s} (h : Start c cr s) (happ : fl.applicable c cr) : OpensAtEnd s fl.script := by
+  obtain ⟨h0, hv, hsme, hcr, htok⟩ := h
+  cases fl with
+  | saslBind =>
+    obtain ⟨h1, h2, h3⟩ := happ
+    exact preSasl_chain h0 hcr h1 h2 (Or.inr h3) _ (by simp) (fun t ht hh _ hs => bind_chain ht hh hs (Or.inr h3))
+  | tlsSaslBind =>
+    obtain ⟨h1, h2, h3, h4⟩ := happ
+    have : Flow.tlsSaslBind.script = preTls ++ (preSasl ++ [.recv (.features (featBind false)), .recv (.iq (.bindResult .ok))]) := by
+      simp [Flow.script, List.append_assoc]
+    rw [this]
+    exact tls_chain h0 h4 h3 _ (by simp [preSasl]) (fun t ht =>
+      preSasl_chain ht rfl h1 h2 (Or.inl rfl) _ (by simp) (fun t' ht' hh _ hs => bind_chain ht' hh hs (Or.inl rfl)))
+  | scramBind =>
+    obtain ⟨h1, h3⟩ := happ
+    have a1 := ph_header h0 true
+    have a2 := ph_features_sasl .scram .scram a1.1 a1.2.1 (Or.inr h3) h1 rfl
+    have a3 := ph_saslChallenge a2.1 a2.2.1
+    have a4 := ph_saslSuccessAny a3.1 a3.2.1 rfl
+    have a5 := ph_header a4.1 true
+    have f5 := fr_header a4.1 true
+    have b := bind_chain a5.1 a5.2.1 (by rw [f5.2.1, a4.2.2.2.2.2]) (Or.inr h3)
+    have q1 := quiet_of_ph a1.1
+    have q5 := quiet_of_ph a5.1
+    exact ⟨q1.1, q1.2.1, q1.2.2, a2.2.2.1, a2.2.2.2.1, a2.1.sess, a3.2.2.1, a3.2.2.2.1, a3.1.sess,
+      a4.2.2.1, a4.2.2.2.1, a4.1.sess, q5.1, q5.2.1, q5.2.2, b⟩
+  | sasl2Bind2 =>
+    obtain ⟨h1, h2, h3⟩ := happ
+    exact sasl2_chain h0 h1 h2 (Or.inr h3)
+  | tlsSasl2Bind2 =>
+    obtain ⟨h1, h2, h3, h4⟩ := happ
+    exact tls_chain h0 h4 h3 _ (by simp [flowSasl2Bind2]) (fun t ht => sasl2_chain ht h1 h2 (Or.inl rfl))
+  | sasl2Fast =>
+    obtain ⟨h1, h2, h3, h4⟩ := happ
+    have a1 := ph_header h0 true
+    have f1 := fr_header h0 true
+    have a2 := ph_features_sasl2fast a1.1 a1.2.1 (Or.inr h4) h1 h2 (by rw [f1.2.2.1, htok, h3])
+    have a3 := ph_s2Success a2.1 a2.2 rfl
+    have a4 := ph_features_sm_done a3.1 a3.2.1 (Or.inr h4) a3.2.2
+    have q1 := quiet_of_ph a1.1
+    have q2 := quiet_of_ph a2.1
+    have q3 := quiet_of_ph a3.1
+    exact ⟨q1.1, q1.2.1, q1.2.2, q2.1, q2.2.1, q2.2.2, q3.1, q3.2.1, q3.2.2, opened_of_ph a3.1.sess a4.2⟩
+  | legacy =>
+    obtain ⟨h1, h2⟩ := happ
+    have a1 := ph_header_versionless h0 hv h1 (Or.inr h2)
+    have a2 := ph_fields a1.1 a1.2.1
+    have a3 := ph_authResult a2.1 a2.2.1
+    exact ⟨a1.2.2.1, a1.2.2.2, a1.1.sess, a2.2.2.1, a2.2.2.2, a2.1.sess, opened_of_ph a2.1.sess a3.2.2.2⟩
+  | saslBindSm r =>
+    obtain ⟨h1, h2, h3, h4⟩ := happ
+    refine preSasl_chain h0 hcr h1 h2 (Or.inr h3) _ (by simp) (fun t ht hh hc hs => ?_)
+    have b1 := ph_features_bindSm true ht hh (Or.inr h3) hs
+    rw [hc, h4] at b1
+    simp only [Bool.and_false, Bool.false_eq_true, if_false] at b1
+    have b2 := ph_bindOk_thenEnable b1.1 b1.2.1 b1.2.2.2.2.1 b1.2.2.2.2.2.2
+    have b3 := ph_smEnabled r b2.1 b2.2.1
+    exact ⟨b1.2.2.1, b1.2.2.2.1, b1.1.sess, b2.2.2.1, b2.2.2.2, b2.1.sess, opened_of_ph b2.1.sess b3.2.2.2⟩
+  | resumeAccepted =>
+    obtain ⟨h1, h2, h3, h4⟩ := happ
+    refine preSasl_chain h0 hcr h1 h2 (Or.inr h3) _ (by simp) (fun t ht hh hc hs => ?_)
+    have b1 := ph_features_bindSm true ht hh (Or.inr h3) hs
+    rw [hc, h4] at b1
+    simp only [Bool.and_self, if_true] at b1
+    have b2 := ph_smResumed b1.1 b1.2.1
+    exact ⟨b1.2.2.1, b1.2.2.2.1, b1.1.sess, opened_of_ph b1.1.sess b2.2.2.2⟩
+  | resumeRefused =>
+    obtain ⟨h1, h2, h3, h4⟩ := happ
+    refine preSasl_chain h0 hcr h1 h2 (Or.inr h3) _ (by simp) (fun t ht hh hc hs => ?_)
+    have b1 := ph_features_bindSm true ht hh (Or.inr h3) hs
+    rw [hc, h4] at b1
+    simp only [Bool.and_self, if_true] at b1
+    have b2 := ph_smFailed_bind b1.1 b1.2.1 b1.2.2.2.2.2.1
+    have b3 := ph_bindOk_thenEnable b2.1 b2.2.1 (by rw [b2.2.2.2.2.1, b1.2.2.2.2.1]) (by rw [b2.2.2.2.2.2, b1.2.2.2.2.2.2])
+    have b4 := ph_smEnabled true b3.1 b3.2.1
+    exact ⟨b1.2.2.1, b1.2.2.2.1, b1.1.sess, b2.2.2.1, b2.2.2.2.1, b2.1.sess, b3.2.2.1, b3.2.2.2, b3.1.sess,
+      opened_of_ph b3.1.sess b4.2.2.2⟩
+  | redirectThenSaslBind =>
+    obtain ⟨h1, h2, h3⟩ := happ
+    have a1 := ph_header h0 true
+    have f1 := fr_header h0 true
+    have a2 := start_after_redirect a1.1 (by rw [f1.1, hcr]) (by rw [f1.2.2.1, htok]) a1.2.1
+    have q1 := quiet_of_ph a1.1
+    have rest := preSasl_chain a2.2.2.2.2.2.ph a2.2.2.2.2.2.cr h1 h2 (Or.inr h3) _ (by simp)
+      (fun t ht hh _ hs => bind_chain ht hh hs (Or.inr h3))
+    exact ⟨q1.1, q1.2.1, q1.2.2, a2.1, a2.2.1, a2.2.2.1, a2.2.2.2.1, a2.2.2.2.2.1, a2.2.2.2.2.2.ph.sess, rest⟩
+
+/-! ### a reported session is an authenticated one, if the server demands authentication -/
+
+/-- **Hypothesis "the server demands authentication"**: a features element received while the client is not yet authenticated
+always leads it into STARTTLS or into an authentication exchange it is configured to use (SASL2, SASL or XEP-0078) — the
+server never offers binding / a session to an unauthenticated client -/
+def demandsAuth (s : St) : Ev → Prop
+  | .recv (.features f) =>
+    s.authenticated = true ∨ handleStarttls s f ≠ none ∨ (s.cfg.useSasl2 = true ∧ f.sasl2 ≠ none) ∨
+    (s.cfg.useSasl = true ∧ f.mechs ≠ none) ∨ (f.legacyAuth = true ∧ s.cfg.useNonSasl = true)
+  | _ => True
+
+def L3 (l : Listener) : Prop := l = .bind ∨ l = .smEnable ∨ l = .smResume
+def Closed (t : St) : Prop := t.sessionStarted = false ∧ t.conn ≠ .connected
+
+/-- invariant: a flagged session is authenticated, and so is a client that is binding / enabling / resuming -/
+def AInv (s : St) : Prop :=
+  (s.sessionStarted = true → s.authenticated = true) ∧ (s.conn = .connected → L3 s.listener → s.authenticated = true)
+
+def AOk (s : St) (r : R) : Prop :=
+  Closed r.1 ∨ r.1.authenticated = true ∨
+  (r.1.authenticated = s.authenticated ∧ r.1.sessionStarted = s.sessionStarted ∧ ¬ L3 r.1.listener)
+
+theorem ainv_of_aok {s : St} {r : R} (h : AOk s r) (hi : AInv s) : AInv r.1 := by
+  rcases h with h | h | h
+  · exact ⟨fun hs => (by rw [h.1] at hs; cases hs), fun hc => absurd hc h.2⟩
+  · exact ⟨fun _ => h, fun _ _ => h⟩
+  · exact ⟨fun hs => by rw [h.1]; exact hi.1 (by rw [← h.2.1]; exact hs), fun _ hl => absurd hl h.2.2⟩
+
+theorem closed_socketClose (s : St) (hc : s.conn = .connected) : Closed (socketClose s).1 := by
+  unfold socketClose
+  rw [if_pos hc]
+  exact ⟨onSocketDisconnected_noSession _, (onSocketDisconnected_down { s with conn := .disconnected } rfl).2⟩
+theorem closed_disconnect (s : St) (hc : s.conn = .connected) : Closed (disconnectFromHost s).1 := by
+  unfold disconnectFromHost; exact closed_socketClose _ hc
+theorem closed_reject (s : St) (hc : s.conn = .connected) : Closed (reject s).1 := by
+  unfold reject; exact closed_disconnect s hc
+theorem closed_failAuth (s : St) (hc : s.conn = .connected) : Closed (failAuth s).1 := by
+  unfold failAuth; exact closed_disconnect s hc
+
+theorem notL3_idle : ¬ L3 .idle := by simp [L3]
+theorem openSession_auth (t : St) : (openSession t).1.authenticated = t.authenticated :=
+  (openSession_spec t).2.2.1.authenticated
+
+theorem handleFeatures_aok (s : St) (f : Features) (hc : s.conn = .connected) (hd : demandsAuth s (.recv (.features f))) :
+    AOk s (handleFeatures s f) := by
+  unfold handleFeatures
+  split
+  · rename_i r hr
+    unfold handleStarttls at hr
+    repeat' split at hr
+    all_goals first
+      | (cases hr; done)
+      | (cases hr; exact Or.inl (closed_disconnect s hc))
+      | (cases hr; exact Or.inr (Or.inr ⟨rfl, rfl, by simp [L3]⟩))
+  · rename_i hnone
+    split
+    · rename_i z _
+      unfold startSasl2
+      dsimp only
+      have h1 : (if z.bind2 = true then { s with bind2InactiveSet := s.cfg.inactive && z.bind2Ext } else s).conn = s.conn ∧
+          (if z.bind2 = true then { s with bind2InactiveSet := s.cfg.inactive && z.bind2Ext } else s).authenticated = s.authenticated ∧
+          (if z.bind2 = true then { s with bind2InactiveSet := s.cfg.inactive && z.bind2Ext } else s).sessionStarted = s.sessionStarted := by
+        split <;> exact ⟨rfl, rfl, rfl⟩
+      generalize (if z.bind2 = true then { s with bind2InactiveSet := s.cfg.inactive && z.bind2Ext } else s) = s1 at h1
+      split
+      · exact Or.inr (Or.inr ⟨h1.2.1, h1.2.2, by simp [L3]⟩)
+      · exact Or.inl (closed_disconnect _ (h1.1.trans hc))
+    · rename_i hs2
+      split
+      · unfold startSasl
+        split
+        · exact Or.inr (Or.inr ⟨rfl, rfl, by simp [L3]⟩)
+        · exact Or.inl (closed_disconnect _ hc)
+      · rename_i hs1
+        split
+        · exact Or.inr (Or.inr ⟨rfl, rfl, by simp [L3, startNonSaslAuth]⟩)
+        · rename_i hleg
+          -- nothing to authenticate with: by hypothesis the client is authenticated already
+          have ha : s.authenticated = true := by
+            rcases hd with h | h | h | h | h
+            · exact h
+            · exact absurd hnone h
+            · exfalso
+              rw [if_pos h.1] at hs2
+              exact h.2 hs2
+            · exfalso
+              rw [if_pos h.1] at hs1
+              exact h.2 hs1
+            · exact absurd h hleg
+          right; left
+          dsimp only
+          split
+          · exact ha
+          · split
+            · exact ha
+            · split
+              · exact ha
+              · rw [openSession_auth]; exact ha
+
+theorem idleHandle_aok (s : St) (e : El) (hc : s.conn = .connected) (hl : s.listener = .idle)
+    (hd : demandsAuth s (.recv e)) : AOk s (idleHandle s e) := by
+  unfold idleHandle
+  split
+  · exact Or.inl (closed_reject s hc)
+  unfold idleHandle'
+  split
+  · exact handleFeatures_aok s _ hc hd
+  · exact Or.inl (closed_socketClose _ hc)
+  · exact Or.inr (Or.inr ⟨rfl, rfl, by rw [hl]; exact notL3_idle⟩)
+  · have c := sendStanza_core s (.iqReply (!(by assumption : Bool)))
+    exact Or.inr (Or.inr ⟨c.1.authenticated, c.2.1, by rw [c.1.listener, hl]; exact notL3_idle⟩)
+  · have c := sendStanza_core s (.iqReply true)
+    exact Or.inr (Or.inr ⟨c.1.authenticated, c.2.1, by rw [c.1.listener, hl]; exact notL3_idle⟩)
+  · split <;> exact Or.inr (Or.inr ⟨rfl, rfl, by rw [hl]; exact notL3_idle⟩)
+  · exact Or.inr (Or.inr ⟨rfl, rfl, by rw [hl]; exact notL3_idle⟩)
+  · exact Or.inr (Or.inr ⟨rfl, rfl, by rw [hl]; exact notL3_idle⟩)
+  · exact Or.inr (Or.inr ⟨rfl, rfl, by rw [hl]; exact notL3_idle⟩)
+  · exact Or.inl (closed_reject s hc)
+
+theorem starttlsHandle_aok (s : St) (e : El) (hc : s.conn = .connected) : AOk s (starttlsHandle s e) := by
+  unfold starttlsHandle
+  split
+  · exact Or.inr (Or.inr ⟨rfl, rfl, by simp [handleStart, L3]⟩)
+  · exact Or.inl ⟨onSocketDisconnected_noSession _, (onSocketDisconnected_down _ rfl).2⟩
+  · exact Or.inl (closed_reject s hc)
+
+theorem nonSaslHandle_aok (s : St) (e : El) (hc : s.conn = .connected) : AOk s (nonSaslHandle s e) := by
+  unfold nonSaslHandle
+  split
+  · split
+    · exact Or.inr (Or.inr ⟨rfl, rfl, by simp [L3]⟩)
+    · exact Or.inl (closed_disconnect s hc)
+  · exact Or.inl (closed_disconnect s hc)
+  · exact Or.inl (closed_reject s hc)
+
+theorem nonSaslResultHandle_aok (s : St) (e : El) (hc : s.conn = .connected) : AOk s (nonSaslResultHandle s e) := by
+  unfold nonSaslResultHandle
+  split
+  · exact Or.inr (Or.inl (openSession_auth _))
+  · exact Or.inr (Or.inl (openSession_auth _))
+  · exact Or.inl (closed_disconnect s hc)
+  · exact Or.inl (closed_reject s hc)
+
+theorem saslHandle_aok (s : St) (m : Used) (fr : Bool) (e : El) (hc : s.conn = .connected) : AOk s (saslHandle s m fr e) := by
+  unfold saslHandle
+  split
+  · split
+    · exact Or.inr (Or.inl rfl)
+    · exact Or.inl (closed_failAuth s hc)
+  · split
+    · exact Or.inr (Or.inr ⟨rfl, rfl, by simp [L3]⟩)
+    · exact Or.inl (closed_failAuth s hc)
+  · exact Or.inl (closed_failAuth s hc)
+  · exact Or.inl (closed_reject s hc)
+
+theorem sasl2Handle_aok (s : St) (m : Used) (fr : Bool) (e : El) (hc : s.conn = .connected) (hnl : ¬ L3 s.listener) :
+    AOk s (sasl2Handle s m fr e) := by
+  unfold sasl2Handle
+  split
+  · split
+    · exact Or.inr (Or.inr ⟨rfl, rfl, by simp [L3]⟩)
+    · exact Or.inl (closed_failAuth s hc)
+  · rename_i b r tok proof
+    split
+    case isFalse => exact Or.inl (closed_failAuth s hc)
+    dsimp only
+    have c1 : ({ s with authenticated := true, bind2Bound := decide (b ≠ S2Bound.none),
+                          hasToken := s.hasToken || (tok && (s.tokenRequested || s.hasToken)) } : St).authenticated = true := rfl
+    generalize ({ s with authenticated := true, bind2Bound := decide (b ≠ S2Bound.none),
+                          hasToken := s.hasToken || (tok && (s.tokenRequested || s.hasToken)) } : St) = s1 at c1
+    have c2 : (if r = .resumed then onSmResumed s1 else (s1, [])).1.authenticated = true := by split <;> exact c1
+    generalize (if r = .resumed then onSmResumed s1 else (s1, [])) = r2 at c2
+    have c3 : (if b = .smEnabled then onSmEnabled r2.1 true else (r2.1, [])).1.authenticated = true := by split <;> exact c2
+    generalize (if b = .smEnabled then onSmEnabled r2.1 true else (r2.1, [])) = r3 at c3
+    right; left
+    split
+    · show (openSession r3.1).1.authenticated = true
+      rw [openSession_auth]; exact c3
+    · exact c3
+  · exact Or.inl (closed_failAuth s hc)
+  · exact Or.inr (Or.inr ⟨rfl, rfl, hnl⟩)
+  · exact Or.inl (closed_reject s hc)
+
+theorem smResumeHandle_aok (s : St) (e : El) (hc : s.conn = .connected) (ha : s.authenticated = true) :
+    AOk s (smResumeHandle s e) := by
+  unfold smResumeHandle
+  split
+  · exact Or.inr (Or.inl (by show (openSession (onSmResumed s).1).1.authenticated = true; rw [openSession_auth]; exact ha))
+  · split
+    · exact Or.inr (Or.inl ha)
+    · exact Or.inr (Or.inl (by show (openSession s).1.authenticated = true; rw [openSession_auth]; exact ha))
+  · exact Or.inl (closed_reject s hc)
+
+theorem smEnableHandle_aok (s : St) (e : El) (hc : s.conn = .connected) (ha : s.authenticated = true) :
+    AOk s (smEnableHandle s e) := by
+  unfold smEnableHandle
+  split
+  · rename_i resume
+    exact Or.inr (Or.inl (by show (openSession (onSmEnabled s resume).1).1.authenticated = true; rw [openSession_auth]; exact ha))
+  · exact Or.inr (Or.inl (by show (openSession s).1.authenticated = true; rw [openSession_auth]; exact ha))
+  · exact Or.inl (closed_reject s hc)
+
+theorem bindHandle_aok (s : St) (e : El) (hc : s.conn = .connected) (ha : s.authenticated = true) :
+    AOk s (bindHandle s e) := by
+  unfold bindHandle
+  split
+  · split
+    · exact Or.inr (Or.inl ha)
+    · exact Or.inr (Or.inl (by show (openSession s).1.authenticated = true; rw [openSession_auth]; exact ha))
+  · exact Or.inl (closed_failAuth s hc)
+  · exact Or.inl (closed_failAuth s hc)
+  · exact Or.inl (closed_reject s hc)
+
+theorem dispatch_aok (s : St) (e : El) (hc : s.conn = .connected) (hi : AInv s) (hd : demandsAuth s (.recv e)) :
+    AOk s (dispatch s e) := by
+  unfold dispatch
+  split
+  · rename_i hl; exact idleHandle_aok s e hc hl hd
+  · exact starttlsHandle_aok s e hc
+  · exact nonSaslHandle_aok s e hc
+  · exact nonSaslResultHandle_aok s e hc
+  · exact saslHandle_aok s _ _ e hc
+  · exact Or.inl (closed_reject s hc)
+  · rename_i hl; exact sasl2Handle_aok s _ _ e hc (by rw [hl]; simp [L3])
+  · exact Or.inl (closed_reject s hc)
+  · rename_i hl; exact smResumeHandle_aok s e hc (hi.2 hc (by rw [hl]; exact Or.inr (Or.inr rfl)))
+  · rename_i hl; exact smEnableHandle_aok s e hc (hi.2 hc (by rw [hl]; exact Or.inr (Or.inl rfl)))
+  · rename_i hl; exact bindHandle_aok s e hc (hi.2 hc (by rw [hl]; exact Or.inl rfl))
+
+theorem step_ainv (s : St) (e : Ev) (hi : AInv s) (hm : MInv s) (hd : demandsAuth s e) : AInv (step s e).1 := by
+  cases e with
+  | connectToServer =>
+    simp only [step]
+    split
+    · rename_i hdc
+      exact ⟨hi.1, fun h => by cases h⟩
+    · exact ⟨hi.1, hi.2⟩
+  | socketConnected =>
+    simp only [step]
+    split
+    · rename_i hcg
+      refine ⟨fun hs => ?_, fun _ hl => absurd hl (by simp [handleStart, L3])⟩
+      have : s.sessionStarted = true := hs
+      have := hm this
+      rw [hcg] at this; cases this
+    · exact hi
+  | socketError => exact hi
+  | socketDisconnected =>
+    simp only [step]
+    split
+    · exact ⟨fun hs => (by rw [onSocketDisconnected_noSession] at hs; cases hs),
+        fun hc => absurd hc (onSocketDisconnected_down _ rfl).2⟩
+    · split
+      · exact ⟨hi.1, fun h => by cases h⟩
+      · exact hi
+  | sendIq =>
+    simp only [step, sendIq]
+    have c := sendStanza_core s (.iqRequest false)
+    have key : AInv (sendStanza s (.iqRequest false)).1 :=
+      ⟨fun hs => by rw [c.1.authenticated]; exact hi.1 (by rw [← c.2.1]; exact hs),
+       fun hc hl => by rw [c.1.authenticated]; exact hi.2 (by rw [← c.1.conn]; exact hc) (by rw [← c.1.listener]; exact hl)⟩
+    split
+    · exact key
+    · exact key
+  | recv el =>
+    simp only [step]
+    unfold recv
+    split
+    · exact hi
+    · rename_i hcw
+      have hc : s.conn = .connected := by
+        by_cases hc : s.conn = .connected
+        · exact hc
+        · exact absurd (Or.inl hc) hcw
+      split
+      · -- header
+        rename_i v i
+        unfold handleStream
+        dsimp only
+        split
+        · exact ⟨hi.1, hi.2⟩
+        · split
+          · split
+            · exact ainv_of_aok (s := s) (Or.inl (closed_disconnect _ hc)) hi
+            · exact ⟨hi.1, fun _ hl => absurd hl (by simp [startNonSaslAuth, L3])⟩
+          · exact ⟨hi.1, hi.2⟩
+      · split
+        · exact ⟨hi.1, hi.2⟩
+        · split
+          · exact ainv_of_aok (s := s) (Or.inl (closed_disconnect s hc)) hi
+          · exact ainv_of_aok (dispatch_aok s el hc hi hd) hi
+
+theorem run_ainv (evs : List Ev) (s : St) (hi : AInv s) (hm : MInv s) (hd : Along demandsAuth s evs) : AInv (run s evs).1 := by
+  induction evs generalizing s with
+  | nil => exact hi
+  | cons e es ih => simp only [run]; exact ih _ (step_ainv s e hi hm hd.1) (step_minv s e hm) hd.2
 
 end Qx.C10
